@@ -34,7 +34,7 @@ def identical(w, fs, S, x):
                           z3.Implies(z3.And(0 <= xx, xx < _z(S)), fs.byte_term(RESOLVED, xx) == C(0, xx))))
 
 
-def h_dest(ctx, N, mode, ck, grid=False, reject=False, M=3, prefix="none"):
+def h_dest(ctx, N, mode, ck, grid=False, reject=False, M=3, prefix="none", shape="file"):
     cktype = CK[ck]
     w = World(ctx, injective=ck in ("crc32", "crc32c"))
     x = ctx.int("x", 0, hdst.OMAX + hdst.LMAX)
@@ -46,7 +46,13 @@ def h_dest(ctx, N, mode, ck, grid=False, reject=False, M=3, prefix="none"):
     if grid:
         seg = ctx.int("L", 1, hdst.LMAX)
     sc = DstScenario(ctx, w, mode=mode, cktype=cktype, closure=closure, seg=seg,
+                     dst_name="/dst" if shape in ("dir", "dir_existing") else RESOLVED,
                      rig_kwargs={"immediate_nak": imm})
+    if shape in ("dir", "dir_existing"):
+        sc.rig.fs.add_dir("/dst")
+    if shape in ("existing", "dir_existing"):
+        # a file is already there (possibly longer than the one delivered now)
+        sc.rig.fs.add_plain_file(RESOLVED, ctx.int("old_len", 0, 64))
     sc.M = M
     if grid:
         ctx.assume(sc.S <= M * seg)
@@ -138,6 +144,11 @@ def plan(tier):
                       twin_share=0.02))
     specs.append(Spec(f"dest/ack/crc32/after-eof_missing/N={3 if q else 4}", "vf.harness.c01:h_dest",
                       {"N": 3 if q else 4, "mode": "ack", "ck": "crc32", "prefix": "eof_missing"}, twin_share=0.02))
+    # destination already present (file, or directory that already contains the file, possibly longer)
+    for mode, shape in (("unack", "existing"), ("unack", "dir_existing"), ("ack", "dir_existing")):
+        specs.append(Spec(f"dest/{mode}/crc32/{shape}/N=3", "vf.harness.c01:h_dest",
+                          {"N": 3, "mode": mode, "ck": "crc32", "shape": shape}, twin_share=0.05,
+                          obligations=["success_indication"]))
     for ck in ("null", "modular"):
         specs.append(Spec(f"dest/ack/{ck}/grid/N={na + 1}", "vf.harness.c01:h_dest",
                           {"N": na + 1, "mode": "ack", "ck": ck, "grid": True, "M": 2 if q else 3},
